@@ -43,6 +43,8 @@ def distinct_assets(W, chk, vp, offer, ask, lab):
 
 
 def run(W, chk):
+    from rules.common import borrow
+    borrow(W, chk, "C16", {"ORDER-coupled-vectors"}, "reserves stay index-coupled with the decimals the invariant is normalised with")
     from rules.swapcore import N
     fid = N.bind(W).CS
     distinct_assets(W, chk, ("Swap",), "info.funds[*].denom", "msg.Swap.ask_asset_denom", "")
